@@ -16,7 +16,7 @@ META = {
         'through its MRO (defining __eq__ alone makes it unhashable) and every field read by the effective __hash__ is compared '
         'by the effective __eq__ (equal objects hash alike); R3 Synset.translate returns [] before querying when the synset has no '
         'ILI id (proposed ILIs have none); R4 inverse navigation is rowid based: Word.senses / Synset.senses query by the '
-        "entity's own rowid in its element scope. R7 navigation rows describe their entity: prescribed select lists (C01-R7) and field-wise constructions from the matching columns (C11-R7). R2 also: every __eq__ defined by a subclass of _DatabaseEntity delegates to the base comparison or requires equal rowids on each path that can answer True. R8 the base of an extension is resolved by id and version at add time (C05-R13)."),
+        "entity's own rowid in its element scope. R7 navigation rows describe their entity: prescribed select lists (C01-R7) and field-wise constructions from the matching columns (C11-R7). R2 also: every __eq__ defined by a subclass of _DatabaseEntity delegates to the base comparison or requires equal rowids on each path that can answer True. R8 the base of an extension is resolved by id and version at add time (C05-R13). R9 translate() targets are all selected lexicons (C08-R4/R6)."),
     'decides': ['navigation discipline', 'eq/hash contract', 'translate guard', 'rowid-based inverse navigation'],
     'not_decided': ['"images of sense lists" (word.synsets(), synset.words()...) as value equalities', 'symmetry of translation'],
     'assumptions': [],
